@@ -444,7 +444,9 @@ def valgrind_jobs(bindir, workdir, known, prop, seed):
 def plan_c14(pid, tier, seed, ncpu):
     def jobs(bindirs, workdir, known):
         js = sketch_jobs(bindirs["dbg"], workdir, known, pid, seed, max(1, ncpu // 2), scale(tier, 1200000, 40000000), big=(tier == "thorough"), exhaustive_len=scale(tier, 9, 11))
-        js += seq_jobs(bindirs["dbg"], workdir, known, pid, "sketchapi", scale(tier, 160000, 4000000), 50, seed, max(1, ncpu // 2))
+        js += seq_jobs(bindirs["dbg"], workdir, known, pid, "sketchapi", scale(tier, 160000, 4000000), 50, seed, max(1, ncpu // 2 - 2))
+        # size-aware caches with hundreds of entries: the size estimate the table is derived from keeps changing
+        js += seq_jobs(bindirs["dbg"], workdir, known, pid, "bulk", scale(tier, 240, 6000), 1300, seed, 4, prefix="bulk")
         return js
 
     m = 1 if tier == "quick" else 10
